@@ -12,7 +12,7 @@ CHECKS = {
     'C01': {
         'level': 'exploration',
         'jobs': [
-            {'engine': 'polyseq', 'variant': 'san', 'profile': 'dd', 'quick': 1600, 'thorough': 40000, 'avg_case_s': 0.15},
+            {'engine': 'polyseq', 'variant': 'san', 'profile': 'dd', 'quick': 1600, 'thorough': 12800, 'avg_case_s': 0.15},
         ],
         'prefixes': ['C01.'],
         'required_counters': ['dd_checks', 'twins', 'q.max_min', 'q.relation_with_c', 'q.relation_with_cg', 'q.relation_with_g'],
@@ -21,7 +21,7 @@ CHECKS = {
     },
     'C02': {
         'level': 'exploration',
-        'jobs': [{'engine': 'polyseq', 'variant': 'san', 'profile': 'ops', 'quick': 1600, 'thorough': 40000, 'avg_case_s': 0.15}],
+        'jobs': [{'engine': 'polyseq', 'variant': 'san', 'profile': 'ops', 'quick': 1600, 'thorough': 12800, 'avg_case_s': 0.15}],
         'prefixes': ['C02.'],
         'required_counters': ['op_checks', 'op.affine_image', 'op.poly_difference_assign', 'op.fold_space_dimensions', 'op.map_space_dimensions'],
         'rule': POLY_RULE,
@@ -32,13 +32,13 @@ CHECKS = {
 CHECKS['C13'] = {
     'level': 'exploration',
     'jobs': [
-        {'engine': 'polyseq', 'variant': 'san', 'profile': 'alias', 'quick': 1200, 'thorough': 20000, 'avg_case_s': 0.15},
-        {'engine': 'gridseq', 'variant': 'san', 'profile': 'alias', 'quick': 800, 'thorough': 8000, 'avg_case_s': 0.05},
-        {'engine': 'psetseq', 'variant': 'san', 'profile': 'alias', 'kv': {'inst': 'all'}, 'quick': 1200, 'thorough': 24000, 'avg_case_s': 0.06},
+        {'engine': 'polyseq', 'variant': 'san', 'profile': 'alias', 'quick': 1200, 'thorough': 9600, 'avg_case_s': 0.15},
+        {'engine': 'gridseq', 'variant': 'san', 'profile': 'alias', 'quick': 800, 'thorough': 6400, 'avg_case_s': 0.05},
+        {'engine': 'psetseq', 'variant': 'san', 'profile': 'alias', 'kv': {'inst': 'all'}, 'quick': 1200, 'thorough': 9600, 'avg_case_s': 0.06},
         {'engine': 'prodseq', 'variant': 'san', 'profile': 'value', 'kv': {'inst': 'all'}, 'quick': 900, 'thorough': 6000, 'avg_case_s': 0.15},
-        {'engine': 'mipdiff', 'variant': 'san', 'profile': 'alias', 'quick': 4000, 'thorough': 80000, 'avg_case_s': 0.02},
-        {'engine': 'pipbrute', 'variant': 'san', 'profile': 'alias', 'quick': 320, 'thorough': 5000, 'avg_case_s': 0.4},
-        {'engine': 'rowdiff', 'variant': 'san', 'profile': 'alias', 'quick': 1600, 'thorough': 32000, 'avg_case_s': 0.08},
+        {'engine': 'mipdiff', 'variant': 'san', 'profile': 'alias', 'quick': 4000, 'thorough': 32000, 'avg_case_s': 0.02},
+        {'engine': 'pipbrute', 'variant': 'san', 'profile': 'alias', 'quick': 320, 'thorough': 2560, 'avg_case_s': 0.4},
+        {'engine': 'rowdiff', 'variant': 'san', 'profile': 'alias', 'quick': 1600, 'thorough': 12800, 'avg_case_s': 0.08},
     ],
     'prefixes': ['C13.'],
     'required_counters': ['bystander_checks', 'alias_checks', 'op.m_swap', 'op.assign', 'snapshot_checks', 'c13.checks'],
@@ -49,13 +49,13 @@ CHECKS['C13'] = {
 CHECKS['C15'] = {
     'level': 'exploration',
     'jobs': [
-        {'engine': 'polyseq', 'variant': 'san', 'profile': 'ascii', 'quick': 1200, 'thorough': 20000, 'avg_case_s': 0.15},
-        {'engine': 'gridseq', 'variant': 'san', 'profile': 'ascii', 'quick': 800, 'thorough': 8000, 'avg_case_s': 0.05},
-        {'engine': 'psetseq', 'variant': 'san', 'profile': 'ascii', 'kv': {'inst': 'all'}, 'quick': 1200, 'thorough': 24000, 'avg_case_s': 0.06},
+        {'engine': 'polyseq', 'variant': 'san', 'profile': 'ascii', 'quick': 1200, 'thorough': 9600, 'avg_case_s': 0.15},
+        {'engine': 'gridseq', 'variant': 'san', 'profile': 'ascii', 'quick': 800, 'thorough': 6400, 'avg_case_s': 0.05},
+        {'engine': 'psetseq', 'variant': 'san', 'profile': 'ascii', 'kv': {'inst': 'all'}, 'quick': 1200, 'thorough': 9600, 'avg_case_s': 0.06},
         {'engine': 'prodseq', 'variant': 'san', 'profile': 'value', 'kv': {'inst': 'all'}, 'quick': 900, 'thorough': 6000, 'avg_case_s': 0.15},
-        {'engine': 'mipdiff', 'variant': 'san', 'profile': 'ascii', 'quick': 4000, 'thorough': 80000, 'avg_case_s': 0.02},
-        {'engine': 'pipbrute', 'variant': 'san', 'profile': 'ascii', 'quick': 320, 'thorough': 5000, 'avg_case_s': 0.4},
-        {'engine': 'rowdiff', 'variant': 'san', 'profile': 'default', 'quick': 8000, 'thorough': 200000, 'avg_case_s': 0.006},
+        {'engine': 'mipdiff', 'variant': 'san', 'profile': 'ascii', 'quick': 4000, 'thorough': 32000, 'avg_case_s': 0.02},
+        {'engine': 'pipbrute', 'variant': 'san', 'profile': 'ascii', 'quick': 320, 'thorough': 2560, 'avg_case_s': 0.4},
+        {'engine': 'rowdiff', 'variant': 'san', 'profile': 'default', 'quick': 8000, 'thorough': 64000, 'avg_case_s': 0.006},
     ],
     'prefixes': ['C15.'],
     'required_counters': ['ascii_roundtrips', 'lockstep_checks', 'c15.roundtrips'],
@@ -67,8 +67,8 @@ CHECKS['C15'] = {
 CHECKS['C19'] = {
     'level': 'fault_enumeration',
     'jobs': [
-        {'engine': 'wdvt', 'variant': 'san', 'profile': 'wd', 'quick': 2000, 'thorough': 60000, 'avg_case_s': 0.01},
-        {'engine': 'wdvt', 'variant': 'san', 'profile': 'ww', 'quick': 1500, 'thorough': 40000, 'avg_case_s': 0.01},
+        {'engine': 'wdvt', 'variant': 'san', 'profile': 'wd', 'quick': 2000, 'thorough': 16000, 'avg_case_s': 0.01},
+        {'engine': 'wdvt', 'variant': 'san', 'profile': 'ww', 'quick': 1500, 'thorough': 12000, 'avg_case_s': 0.01},
         {'engine': 'wdvt', 'variant': 'san', 'profile': 'soak', 'quick': 0, 'thorough': 500, 'avg_case_s': 0.1, 'thorough_only': True, 'max_workers': 4},
     ],
     'prefixes': ['C19.'],
@@ -84,7 +84,7 @@ CHECKS['C19'] = {
 }
 CHECKS['C18'] = {
     'level': 'exploration',
-    'jobs': [{'engine': 'termrank', 'variant': 'san', 'profile': 'default', 'quick': 3000, 'thorough': 120000, 'avg_case_s': 0.04}],
+    'jobs': [{'engine': 'termrank', 'variant': 'san', 'profile': 'default', 'quick': 3000, 'thorough': 24000, 'avg_case_s': 0.04}],
     'prefixes': ['C18.'],
     'required_counters': ['selftest_runs', 'rf_verified', 'complete_checks', 'ms_vs_pr_checks', 'members.point', 'members.ray', 'members.line', 'members.random',
                           'relation.has_rf', 'relation.no_rf', 'form.one', 'form.two', 'op.test_MS', 'op.test_PR', 'op.one_MS', 'op.one_PR', 'op.all_MS', 'op.all_PR',
@@ -99,9 +99,9 @@ CHECKS['C18'] = {
 CHECKS['C17'] = {
     'level': 'exploration',
     'jobs': [
-        {'engine': 'wrapseq', 'variant': 'san', 'profile': 'default', 'kv': {'inst': 'all'}, 'quick': 8000, 'thorough': 100000, 'avg_case_s': 0.04},
-        {'engine': 'boxseq', 'variant': 'san', 'profile': 'wrap', 'kv': {'inst': 'all'}, 'quick': 1600, 'thorough': 32000, 'avg_case_s': 0.15},
-        {'engine': 'polyseq', 'variant': 'san', 'profile': 'wrap', 'quick': 800, 'thorough': 15000, 'avg_case_s': 0.15},
+        {'engine': 'wrapseq', 'variant': 'san', 'profile': 'default', 'kv': {'inst': 'all'}, 'quick': 8000, 'thorough': 64000, 'avg_case_s': 0.04},
+        {'engine': 'boxseq', 'variant': 'san', 'profile': 'wrap', 'kv': {'inst': 'all'}, 'quick': 1600, 'thorough': 12800, 'avg_case_s': 0.15},
+        {'engine': 'polyseq', 'variant': 'san', 'profile': 'wrap', 'quick': 800, 'thorough': 6400, 'avg_case_s': 0.15},
     ],
     'prefixes': ['C17.'],
     'required_counters': ['q.contains_integer_point', 'op.drop_some_non_integer_points', 'int_points_checked', 'op.wrap_assign', 'op.contains_integer_point', 'images.checked',
@@ -119,7 +119,7 @@ CHECKS['C17'] = {
 
 CHECKS['C07'] = {
     'level': 'exploration',
-    'jobs': [{'engine': 'pipbrute', 'variant': 'san', 'profile': 'default', 'quick': 1200, 'thorough': 20000, 'avg_case_s': 0.4, 'case_timeout': 120}],
+    'jobs': [{'engine': 'pipbrute', 'variant': 'san', 'profile': 'default', 'quick': 1200, 'thorough': 9600, 'avg_case_s': 0.4, 'case_timeout': 120}],
     'prefixes': ['C07.'],
     'required_counters': ['solves', 'solves.incremental', 'walk.point', 'walk.bottom', 'tree.with_cuts', 'tree.with_splits', 'mode.bigparam', 'op.add_constraint',
                           'op.add_constraints', 'op.add_dims', 'op.add_params', 'runs.cut_all+pivot_max_column', 'ref.bruteforce_crosschecks',
@@ -133,10 +133,10 @@ CHECKS['C07'] = {
 CHECKS['C05'] = {
     'level': 'exploration',
     'jobs': [
-        {'engine': 'gridseq', 'variant': 'san', 'profile': 'default', 'quick': 1600, 'thorough': 40000, 'avg_case_s': 0.05},
-        {'engine': 'gridseq', 'variant': 'san', 'profile': 'dd', 'quick': 800, 'thorough': 16000, 'avg_case_s': 0.05},
-        {'engine': 'gridseq', 'variant': 'san', 'profile': 'ops', 'quick': 800, 'thorough': 16000, 'avg_case_s': 0.05},
-        {'engine': 'gridseq', 'variant': 'san', 'profile': 'selftest', 'quick': 320, 'thorough': 3200, 'avg_case_s': 0.06},
+        {'engine': 'gridseq', 'variant': 'san', 'profile': 'default', 'quick': 1600, 'thorough': 12800, 'avg_case_s': 0.05},
+        {'engine': 'gridseq', 'variant': 'san', 'profile': 'dd', 'quick': 800, 'thorough': 6400, 'avg_case_s': 0.05},
+        {'engine': 'gridseq', 'variant': 'san', 'profile': 'ops', 'quick': 800, 'thorough': 6400, 'avg_case_s': 0.05},
+        {'engine': 'gridseq', 'variant': 'san', 'profile': 'selftest', 'quick': 320, 'thorough': 2560, 'avg_case_s': 0.06},
     ],
     'prefixes': ['C05.'],
     'required_counters': ['dd_checks', 'op_checks', 'q.relation_with_cg', 'q.frequency', 'op.difference_assign', 'op.generalized_affine_preimage', 'st.difference',
@@ -149,7 +149,7 @@ CHECKS['C05'] = {
 }
 CHECKS['C06'] = {
     'level': 'exploration',
-    'jobs': [{'engine': 'mipdiff', 'variant': 'san', 'profile': 'default', 'quick': 16000, 'thorough': 600000, 'avg_case_s': 0.02}],
+    'jobs': [{'engine': 'mipdiff', 'variant': 'san', 'profile': 'default', 'quick': 16000, 'thorough': 128000, 'avg_case_s': 0.02}],
     'prefixes': ['C06.'],
     'required_counters': ['q.solve', 'q.is_satisfiable', 'q.feasible_point', 'q.optimizing_point', 'q.optimal_value', 'fresh.float', 'fresh.exact', 'fresh.textbook',
                           'ref.enum', 'ref.bb', 'incremental_requery', 'reach.MIP_PIVOT', 'reach.MIP_PRICE_FLOAT', 'reach.MIP_PRICE_EXACT', 'reach.MIP_PRICE_TEXTBOOK',
@@ -164,8 +164,8 @@ CHECKS['C06'] = {
 CHECKS['C12'] = {
     'level': 'exploration',
     'jobs': [
-        {'engine': 'ivalencl', 'variant': 'san', 'profile': 'default', 'quick': 48000, 'thorough': 1200000, 'avg_case_s': 0.004},
-        {'engine': 'fplin', 'variant': 'san', 'profile': 'default', 'quick': 4000, 'thorough': 40000, 'avg_case_s': 0.05},
+        {'engine': 'ivalencl', 'variant': 'san', 'profile': 'default', 'quick': 48000, 'thorough': 384000, 'avg_case_s': 0.004},
+        {'engine': 'fplin', 'variant': 'san', 'profile': 'default', 'quick': 4000, 'thorough': 32000, 'avg_case_s': 0.05},
     ],
     'prefixes': ['C12.'],
     'required_counters': ['encl_checks', 'exact_checks', 'flag_checks', 'pred_checks', 'op.mul', 'op.div', 'op.wrap_assign', 'op.refine_universal', 'pol.rat_oc', 'pol.flt_oc',
@@ -186,12 +186,12 @@ SHAPE_RULE = ('shapeseq: cases = random histories (4-12 steps) over a pool of 3 
 CHECKS['C03'] = {
     'level': 'exploration',
     'jobs': [
-        {'engine': 'shapeseq', 'variant': 'san', 'profile': 'default', 'kv': {'inst': 'all'}, 'quick': 3600, 'thorough': 90000, 'avg_case_s': 0.05},
-        {'engine': 'shapeseq', 'variant': 'san', 'profile': 'limits', 'kv': {'inst': 'all'}, 'quick': 1200, 'thorough': 18000, 'avg_case_s': 0.05},
-        {'engine': 'boxseq', 'variant': 'san', 'profile': 'ops', 'kv': {'inst': 'all'}, 'quick': 2400, 'thorough': 40000, 'avg_case_s': 0.1},
-        {'engine': 'boxseq', 'variant': 'san', 'profile': 'conv', 'kv': {'inst': 'all'}, 'quick': 800, 'thorough': 16000, 'avg_case_s': 0.1},
+        {'engine': 'shapeseq', 'variant': 'san', 'profile': 'default', 'kv': {'inst': 'all'}, 'quick': 3600, 'thorough': 28800, 'avg_case_s': 0.05},
+        {'engine': 'shapeseq', 'variant': 'san', 'profile': 'limits', 'kv': {'inst': 'all'}, 'quick': 1200, 'thorough': 9600, 'avg_case_s': 0.05},
+        {'engine': 'boxseq', 'variant': 'san', 'profile': 'ops', 'kv': {'inst': 'all'}, 'quick': 2400, 'thorough': 19200, 'avg_case_s': 0.1},
+        {'engine': 'boxseq', 'variant': 'san', 'profile': 'conv', 'kv': {'inst': 'all'}, 'quick': 800, 'thorough': 6400, 'avg_case_s': 0.1},
         # constraint propagation on boxes with independently open/closed finite bounds, >= 3 variables (one branch per sign pattern)
-        {'engine': 'boxseq', 'variant': 'san', 'profile': 'prop', 'kv': {'inst': 'all'}, 'quick': 3600, 'thorough': 36000, 'avg_case_s': 0.08},
+        {'engine': 'boxseq', 'variant': 'san', 'profile': 'prop', 'kv': {'inst': 'all'}, 'quick': 3600, 'thorough': 28800, 'avg_case_s': 0.08},
     ],
     'prefixes': ['C03.'],
     'required_counters': ['sound_checks', 'view_checks', 'pred_checks', 'ctor_checks', 'op.affine_image', 'op.bounded_affine_preimage', 'op.generalized_affine_image_lr',
@@ -203,10 +203,10 @@ CHECKS['C03'] = {
 CHECKS['C04'] = {
     'level': 'exploration',
     'jobs': [
-        {'engine': 'shapeseq', 'variant': 'san', 'profile': 'exact', 'kv': {'inst': 'rational'}, 'quick': 1600, 'thorough': 40000, 'avg_case_s': 0.05},
-        {'engine': 'boxseq', 'variant': 'san', 'profile': 'pred', 'kv': {'inst': 'rat'}, 'quick': 1600, 'thorough': 64000, 'avg_case_s': 0.05},
-        {'engine': 'boxseq', 'variant': 'san', 'profile': 'ops', 'kv': {'inst': 'rat'}, 'quick': 1200, 'thorough': 48000, 'avg_case_s': 0.08},
-        {'engine': 'boxseq', 'variant': 'san', 'profile': 'conv', 'kv': {'inst': 'rat'}, 'quick': 640, 'thorough': 24000, 'avg_case_s': 0.08},
+        {'engine': 'shapeseq', 'variant': 'san', 'profile': 'exact', 'kv': {'inst': 'rational'}, 'quick': 1600, 'thorough': 12800, 'avg_case_s': 0.05},
+        {'engine': 'boxseq', 'variant': 'san', 'profile': 'pred', 'kv': {'inst': 'rat'}, 'quick': 1600, 'thorough': 12800, 'avg_case_s': 0.05},
+        {'engine': 'boxseq', 'variant': 'san', 'profile': 'ops', 'kv': {'inst': 'rat'}, 'quick': 1200, 'thorough': 9600, 'avg_case_s': 0.08},
+        {'engine': 'boxseq', 'variant': 'san', 'profile': 'conv', 'kv': {'inst': 'rat'}, 'quick': 640, 'thorough': 5120, 'avg_case_s': 0.08},
     ],
     'prefixes': ['C04.'],
     'required_counters': ['best_checks', 'exact_checks', 'pred_checks', 'twins', 'op.upper_bound_assign_if_exact', 'q.relation_with_cg', 'q.relation_with_g', 'q.affine_dimension', 'q.constrains'],
@@ -216,9 +216,9 @@ CHECKS['C04'] = {
 CHECKS['C09'] = {
     'level': 'exploration',
     'jobs': [
-        {'engine': 'psetseq', 'variant': 'san', 'profile': 'default', 'kv': {'inst': 'all'}, 'quick': 2400, 'thorough': 48000, 'avg_case_s': 0.06},
-        {'engine': 'psetseq', 'variant': 'san', 'profile': 'geom', 'kv': {'inst': 'all'}, 'quick': 1200, 'thorough': 24000, 'avg_case_s': 0.06},
-        {'engine': 'psetseq', 'variant': 'san', 'profile': 'cow', 'kv': {'inst': 'all'}, 'quick': 1200, 'thorough': 24000, 'avg_case_s': 0.06},
+        {'engine': 'psetseq', 'variant': 'san', 'profile': 'default', 'kv': {'inst': 'all'}, 'quick': 2400, 'thorough': 19200, 'avg_case_s': 0.06},
+        {'engine': 'psetseq', 'variant': 'san', 'profile': 'geom', 'kv': {'inst': 'all'}, 'quick': 1200, 'thorough': 9600, 'avg_case_s': 0.06},
+        {'engine': 'psetseq', 'variant': 'san', 'profile': 'cow', 'kv': {'inst': 'all'}, 'quick': 1200, 'thorough': 9600, 'avg_case_s': 0.06},
     ],
     'prefixes': ['C09.'],
     'required_counters': ['op_checks', 'reduction_checks', 'difference_checks', 'geom_checks', 'simplify_checks', 'op.collapse', 'op.drop_disjunct', 'op.concatenate_assign',
@@ -234,7 +234,7 @@ CHECKS['C09'] = {
 
 CHECKS['C08'] = {
     'level': 'exploration',
-    'jobs': [{'engine': 'widenchain', 'variant': 'san', 'profile': 'default', 'quick': 1600, 'thorough': 40000, 'avg_case_s': 0.3}],
+    'jobs': [{'engine': 'widenchain', 'variant': 'san', 'profile': 'default', 'quick': 1600, 'thorough': 12800, 'avg_case_s': 0.3}],
     'prefixes': ['C08.'],
     'required_counters': ['superset_checks', 'certificate_checks', 'certificate_ppl_compares', 'token_checks', 'limited_checks', 'twin_checks',
                           'chains.C_Polyhedron.BHRZ03_widening_assign', 'chains.NNC_Polyhedron.H79_widening_assign', 'chains.BD_Shape<mpq_class>.BHMZ05_widening_assign',
@@ -270,14 +270,14 @@ CHECKS['C11'] = {
     'level': 'exploration',
     'jobs': [
         {'engine': 'numkernel', 'variant': 'san', 'profile': 'i8', 'quick': 1382, 'thorough': 5478, 'avg_case_s': 0.4, 'min_chunk': 1},
-        {'engine': 'numkernel', 'variant': 'san', 'profile': 'wide', 'quick': 640, 'thorough': 16000, 'avg_case_s': 0.1},
-        {'engine': 'numkernel', 'variant': 'san', 'profile': 'float', 'quick': 640, 'thorough': 16000, 'avg_case_s': 0.1},
-        {'engine': 'numkernel', 'variant': 'san', 'profile': 'gmp', 'quick': 480, 'thorough': 8000, 'avg_case_s': 0.1},
+        {'engine': 'numkernel', 'variant': 'san', 'profile': 'wide', 'quick': 640, 'thorough': 5120, 'avg_case_s': 0.1},
+        {'engine': 'numkernel', 'variant': 'san', 'profile': 'float', 'quick': 640, 'thorough': 5120, 'avg_case_s': 0.1},
+        {'engine': 'numkernel', 'variant': 'san', 'profile': 'gmp', 'quick': 480, 'thorough': 3840, 'avg_case_s': 0.1},
         # configuration differential: the san (mpz) cfgdiff spawns ../../san-iN/bin/cfgdiff for the same cases and compares
-        {'engine': 'cfgdiff', 'variant': 'san', 'profile': 'i8', 'kv': {'bits': 8}, 'quick': 1600, 'thorough': 40000, 'avg_case_s': 0.01},
-        {'engine': 'cfgdiff', 'variant': 'san', 'profile': 'i16', 'kv': {'bits': 16}, 'quick': 1600, 'thorough': 40000, 'avg_case_s': 0.01},
-        {'engine': 'cfgdiff', 'variant': 'san', 'profile': 'i32', 'kv': {'bits': 32}, 'quick': 1600, 'thorough': 40000, 'avg_case_s': 0.01},
-        {'engine': 'cfgdiff', 'variant': 'san', 'profile': 'i64', 'kv': {'bits': 64}, 'quick': 1600, 'thorough': 40000, 'avg_case_s': 0.01},
+        {'engine': 'cfgdiff', 'variant': 'san', 'profile': 'i8', 'kv': {'bits': 8}, 'quick': 1600, 'thorough': 12800, 'avg_case_s': 0.01},
+        {'engine': 'cfgdiff', 'variant': 'san', 'profile': 'i16', 'kv': {'bits': 16}, 'quick': 1600, 'thorough': 12800, 'avg_case_s': 0.01},
+        {'engine': 'cfgdiff', 'variant': 'san', 'profile': 'i32', 'kv': {'bits': 32}, 'quick': 1600, 'thorough': 12800, 'avg_case_s': 0.01},
+        {'engine': 'cfgdiff', 'variant': 'san', 'profile': 'i64', 'kv': {'bits': 64}, 'quick': 1600, 'thorough': 12800, 'avg_case_s': 0.01},
         # build-only jobs (0 cases): the bounded-coefficient binaries the san job spawns
         {'engine': 'cfgdiff', 'variant': 'san-i8', 'quick': 0, 'thorough': 0},
         {'engine': 'cfgdiff', 'variant': 'san-i16', 'quick': 0, 'thorough': 0},
@@ -300,7 +300,7 @@ CHECKS['C11'] = {
 
 CHECKS['C16'] = {
     'level': 'exploration',
-    'jobs': [{'engine': 'rowdiff', 'variant': 'san', 'profile': 'default', 'quick': 32000, 'thorough': 1600000, 'avg_case_s': 0.006}],
+    'jobs': [{'engine': 'rowdiff', 'variant': 'san', 'profile': 'default', 'quick': 32000, 'thorough': 256000, 'avg_case_s': 0.006}],
     'prefixes': ['C16.', 'C15.row.'],
     'required_counters': ['row_checks', 'tree_checks', 'client_checks', 'ascii_roundtrips', 'expr.binary_query_combos', 'obj.binary_query_combos', 'reach.COTREE_BIGGER',
                           'reach.COTREE_SMALLER', 'reach.COTREE_REDISTRIBUTE', 'reach.COTREE_REBALANCE', 'row.hint.stale', 'row.hint.fresh', 'row.hint.end',
@@ -317,11 +317,11 @@ CHECKS['C16'] = {
 CHECKS['C20'] = {
     'level': 'exploration',
     'jobs': [
-        {'engine': 'ciface', 'variant': 'san', 'mk': 'ciface.mk', 'profile': 'equiv', 'quick': 2000, 'thorough': 40000, 'avg_case_s': 0.005},
-        {'engine': 'ciface', 'variant': 'san', 'mk': 'ciface.mk', 'profile': 'illformed', 'quick': 2000, 'thorough': 40000, 'avg_case_s': 0.02},
+        {'engine': 'ciface', 'variant': 'san', 'mk': 'ciface.mk', 'profile': 'equiv', 'quick': 2000, 'thorough': 16000, 'avg_case_s': 0.005},
+        {'engine': 'ciface', 'variant': 'san', 'mk': 'ciface.mk', 'profile': 'illformed', 'quick': 2000, 'thorough': 16000, 'avg_case_s': 0.02},
         {'engine': 'ciface', 'variant': 'san', 'mk': 'ciface.mk', 'profile': 'timeout', 'quick': 2000, 'thorough': 16000, 'avg_case_s': 0.01},
         {'engine': 'ciface', 'variant': 'san', 'mk': 'ciface.mk', 'profile': 'alloc', 'quick': 2000, 'thorough': 8000, 'avg_case_s': 0.15},
-        {'engine': 'ciface', 'variant': 'san', 'mk': 'ciface.mk', 'profile': 'seq', 'quick': 650, 'thorough': 20000, 'avg_case_s': 0.02},
+        {'engine': 'ciface', 'variant': 'san', 'mk': 'ciface.mk', 'profile': 'seq', 'quick': 650, 'thorough': 5200, 'avg_case_s': 0.02},
     ],
     'prefixes': ['C20.'],
     'required_counters': ['twin_checked', 'calls', 'alloc.failure_points', 'timeout.fired_det', 'ret.OUT_OF_MEMORY', 'ret.TIMEOUT_EXCEPTION', 'ret.INVALID_ARGUMENT', 'ret.LENGTH_ERROR',
